@@ -4,6 +4,7 @@ import Pfl.Model.Regex
 import Pfl.Model.ToRegex
 import Pfl.Model.RegexToCFG
 import Pfl.Model.PyRegex
+import Pfl.Model.PyRegexPasses
 import PflDrv.CFG
 open Lean Pfl
 namespace PflDrv
@@ -144,6 +145,19 @@ def rxHandle (op : String) (j : Json) : R Json := do
       | _ => throw "bad order"
     let order : Nat → List (Option Nat) := fun f => ((orders.find? (·.1 = f)).map (·.2)).getD []
     pure (jRx (A.toRegexRx (fun k => names.getD k "?") order))
+  | "rx.pyPasses" =>   -- model of the textual passes of PythonRegex.__init__ (Pfl/Model/PyRegexPasses.lean)
+    -- answer per pattern: {"out": str} | {"err": "unsupported" | "MisformedRegexError" | "IndexError"};
+    -- with "trace": true also the string after each of the six passes
+    let ps ← asStrList (← field j "patterns")
+    let tr := (fieldD j "trace" (jBool false)).getBool?.toOption.getD false
+    let jRes : Except PyPass.Err PyPass.Tok → Json
+      | .ok s => Json.mkObj [("out", jStr (String.ofList s))]
+      | .error .unsupported => Json.mkObj [("err", jStr "unsupported")]
+      | .error .misformed => Json.mkObj [("err", jStr "MisformedRegexError")]
+      | .error .indexError => Json.mkObj [("err", jStr "IndexError")]
+    pure (jList (fun (p : String) =>
+      let r := jRes (PyPass.transform p.toList)
+      if tr then r.setObjVal! "trace" (jList jRes (PyPass.trace p.toList)) else r) ps)
   | _ => throw s!"unknown op {op}"
 
 end PflDrv
